@@ -25,6 +25,8 @@ ASSUMPTIONS = [
 	"a '-' is never the last character of a line; the blank (or its absence) after '-' belongs to the structure, not to the layout",
 	'CPython 3.12 tokenize is the reference',
 ]
+# coverage-guided phase of the thorough tier (atheris/libFuzzer over the same strategy and oracle, vf/core.py _drive_atheris)
+FUZZ = {'seconds': 150, 'procs': 8, 'max_len': 2048, 'imports': ['rogw.tranp.implements.syntax.tranp.tokenizer']}
 BUDGET = {
 	'quick': {'seconds': 25, 'examples': 2500, 'shards': 16},
 	'thorough': {'seconds': 500, 'examples': 150000, 'shards': 16},
